@@ -1,0 +1,27 @@
+//go:build verif
+
+package kv
+
+import "fmt"
+
+// VerifC11CompactSync runs one compaction job of the family on the caller's goroutine (the body
+// of the goroutine that family.compact() starts), when the family has more than one level-0 file
+// (the condition of Family.Compact()). Verification hook of property C11: it lets the harness
+// place "these files were compacted" deterministically between writes and queries.
+func VerifC11CompactSync(f Family) error {
+	fam, ok := f.(*family)
+	if !ok {
+		return fmt.Errorf("VerifC11CompactSync: not a *family")
+	}
+	snapshot := fam.GetSnapshot()
+	numberOfFiles := snapshot.GetCurrent().NumberOfFilesInLevel(0)
+	snapshot.Close()
+	if numberOfFiles <= 1 {
+		return nil
+	}
+	if !fam.compacting.CompareAndSwap(false, true) {
+		return fmt.Errorf("VerifC11CompactSync: compaction already running")
+	}
+	defer fam.compacting.Store(false)
+	return fam.backgroundCompactionJob()
+}
